@@ -314,6 +314,13 @@ def families(tier, seed, ctx):
             Family("standard-suites", suites_script(False), monitor=suites_monitor(False)),
             Family("standard-suites-openssl", suites_script(True), monitor=suites_monitor(True), config="openssl"),
             Family("rfc7714-vectors", gcm_kat_scripts(), monitor=kat_monitor, config="openssl"),
+            # GCM-128 for one half of the policy and GCM-256 for the other: the session salts / keys of each half come from ITS key
+            # length (the model's AEAD IVs are proved equal to Spec/Rfc7714.v; the model is compared with the library here)
+            Family("gcm-mixed-key-sizes", with_aead(__import__("lib.props.C02", fromlist=["x"]).scripts, random.Random(seed * 1000 + 403), tier,
+                                                    n=(6 if tier == "quick" else 40), aead_mix=True) +
+                                          with_aead(__import__("lib.props.C01", fromlist=["x"]).scripts, random.Random(seed * 1000 + 503), tier,
+                                                    n=(4 if tier == "quick" else 30), aead_mix=True),
+                   monitor=None, config="openssl"),
             # the OpenSSL back end's AES-ICM / HMAC glue (aes_icm_ossl.c, hmac_ossl.c) and AES-192 (RFC 6188), which only that
             # configuration has, against the same RFC specification
             Family("wire-vs-rfc-openssl", [("corpus-aes192", build(random.Random(6188), "quick", ctx, ciphers=[ICM192], n=1)[0][1])] +
